@@ -131,6 +131,17 @@ func HostsLines(thorough bool) []Family {
 		}
 		fams = append(fams, List("line_longnames", xs))
 	}
+	// very long fields of one byte value (error texts get shortened, buffers sized by powers of two)
+	{
+		var xs []string
+		for _, unit := range []string{"\x80", "\xbf", "\xff", "\xe2\x82", "a", "\u00e9"} {
+			for _, n := range []int{1023, 1024, 1025, 1026, 1100, 2048, 4097} {
+				x := Rep(unit, n)
+				xs = append(xs, "1.2.3.4 "+x, "1.2.3.4 ok.example "+x+" after.example", x+" host.example", "::1\t"+x+".example # c", "fe80::1%"+x+" host.example", "1.2.3.4 ok.example."+x)
+			}
+		}
+		fams = append(fams, List("line_verylong", xs))
+	}
 	// 3..5 names, sampled, with the invalid one at every index
 	fams = append(fams, Random("line_manynames", pick(300_000, 6_000_000), func(rng *rand.Rand) string {
 		var sb strings.Builder
